@@ -55,7 +55,8 @@ LEVEL_TEXT = ('Machine-checked: for programs of any size, a permutation that kee
               '(closed_prefix_commit_equiv, table_programs_segmented, commit_segs_runs_schedules, commit_model_segmented_invariant); '
               'closedness is necessary (open_cut_differs); the same for ANY number of intermediate commits with closed cuts '
               '(closed_segs_commit_equiv, closed_segs_two_cuttings_agree, table_programs_closed_segs, commit_segs_runs_all, '
-              'commit_model_closed_segs_invariant).')
+              'commit_model_closed_segs_invariant), also with executable hypotheses only (checked_segs_commit_equiv: h1b, h2b, '
+              'closed_segsb, seq_same_phaseb).')
 LEVEL_NOTE = ('PARTIAL by design: equality of whole applications is validated (metamorphic run), not proved. H2 rests on the declared '
               'read table (what the action CALLABLES read/write: monitored at run time, not translated; their text is pinned, names '
               'blanked, in closure_pins.json). Members of TopologicalSorter containers placed by explicit constraints are modelled as '
